@@ -423,3 +423,92 @@ V('c12-twin-set-seen-local', 'C12', 'R12.1', STATE,
   '''        wants_seen = any(attr.set_seen for attr in cmd.attributes)
         set_seen = wants_seen and not self.selected.readonly''',
   expect='silent')
+
+# ---------------------------------------------------------------- C17
+FLAGSPY = 'pymap/flags.py'
+MAILDIRMBX = 'pymap/backend/maildir/mailbox.py'
+V('c17-permanent-keeps-recent', 'C17', 'R17.1', FLAGSPY,
+  '''    __slots__ = ['_defined']
+
+    def __init__(self, defined: Iterable[Flag]) -> None:
+        super().__init__()
+        self._defined = frozenset(defined) - _recent_set''',
+  '''    __slots__ = ['_defined']
+
+    def __init__(self, defined: Iterable[Flag]) -> None:
+        super().__init__()
+        self._defined = frozenset(defined)''')
+V('c17-session-update-unfiltered', 'C17', 'R17.1', FLAGSPY,
+  'new_flags = op.apply(orig_set, self & flag_set)',
+  'new_flags = op.apply(orig_set, frozenset(flag_set))')
+V('c17-recent-true', 'C17', 'R17.2', SESS,
+  '''            msg = await mbx.append(append_msg, recent=not dest_selected)''',
+  '''            msg = await mbx.append(append_msg, recent=True)''')
+V('c17-recent-not-negated', 'C17', 'R17.2', SESS,
+  '''            dest_uid = await mbx.copy(source_uid, dest,
+                                      recent=not dest_selected)''',
+  '''            dest_uid = await mbx.copy(source_uid, dest,
+                                      recent=bool(dest_selected))''')
+V('c17-add-recent-unguarded', 'C17', 'R17.2', SESS,
+  '''            msg = await mbx.append(append_msg, recent=not dest_selected)
+            if dest_selected:
+                dest_selected.session_flags.add_recent(msg.uid)''',
+  '''            msg = await mbx.append(append_msg, recent=not dest_selected)
+            if selected:
+                selected.session_flags.add_recent(msg.uid)''')
+V('c17-claim-no-clear', 'C17', 'R17.4', DICTMBX,
+  '''            if msg.recent:
+                msg.recent = False
+                msg_uid = msg.uid''', '''            if msg.recent:
+                msg_uid = msg.uid''')
+V('c17-claim-sleep', 'C17', 'R17.4', DICTMBX,
+  '''            if msg.recent:
+                msg.recent = False
+                msg_uid = msg.uid''', '''            if msg.recent:
+                await asyncio.sleep(0)
+                msg.recent = False
+                msg_uid = msg.uid''')
+V('c17-claim-clear-without-add', 'C17', 'R17.4', DICTMBX,
+  '''                msg.recent = False
+                msg_uid = msg.uid
+                selected.session_flags.add_recent(msg_uid)''',
+  '''                msg.recent = False
+                msg_uid = msg.uid
+                if msg_uid % 2:
+                    selected.session_flags.add_recent(msg_uid)''')
+V('c17-revert-pick-fix', 'C17', 'R17.5', SESS,
+  '''        if selected and selected.mailbox_id == mbx.mailbox_id \\
+                and not selected.readonly:''',
+  '''        if selected and selected.mailbox_id == mbx.mailbox_id:''')
+V('c17-any-selected-unfiltered', 'C17', 'R17.5', SEL,
+  '''        for selected in self._set:
+            if not selected.readonly:
+                return selected
+        return None''', '''        for selected in self._set:
+            return selected
+        return None''')
+V('c17-select-count-source', 'C17', 'R17.6', STATE,
+  'num_recent = updates.session_flags.recent', 'num_recent = mailbox.recent')
+V('c17-revert-claim-fix', 'C17', 'R17.7', MAILDIRMBX,
+  'keys = frozenset(self._maildir.claim_new())',
+  'keys = self._maildir.claim_new()')
+V('c17-copy-carries-recent', 'C17', 'R17.8', DICTMBX,
+  '''                   thread_id=msg.thread_id, recent=recent,''',
+  '''                   thread_id=msg.thread_id, recent=msg.recent,''')
+# twins
+V('c17-twin-local-negation', 'C17', 'R17.2', SESS,
+  '''        uids: list[int] = []
+        for append_msg in messages:
+            msg = await mbx.append(append_msg, recent=not dest_selected)''',
+  '''        uids: list[int] = []
+        store_recent = not dest_selected
+        for append_msg in messages:
+            msg = await mbx.append(append_msg, recent=store_recent)''',
+  expect='silent')
+V('c17-twin-claim-list', 'C17', 'R17.7', MAILDIRMBX,
+  'keys = frozenset(self._maildir.claim_new())',
+  'keys = set(self._maildir.claim_new())', expect='silent')
+V('c17-twin-difference', 'C17', 'R17.1', FLAGSPY,
+  '''        self._defined = frozenset(defined) - _recent_set
+        self._flags''', '''        self._defined = frozenset(defined).difference(_recent_set)
+        self._flags''', expect='silent')
